@@ -20,7 +20,7 @@ def centre_of(points):
 REG.add(Contract("polyply.src.linalg_functions:center_of_geometry", params=dict(points=TList(V3)), result=V3,
                  defines={"names the result (a function of the points)": "is_centre(result, points)"},
                  spec_fns=dict(is_centre=lambda r, pts: z3.And(*[a == b for a, b in zip(r.data, centre_of(pts))])), trusted=True,
-                 note="numpy.average over the rows: the mean position (value not interpreted; that the mean of the differences is zero is arithmetic, not machine-checked here)"))
+                 note="numpy.average over the rows: the mean position (value not interpreted; that the mean of the differences is then zero is certified in lean/Centroid.lean)"))
 
 
 def shifted(out, coords, pts, pos=None, k=None):
